@@ -564,7 +564,8 @@ class NpyWriter(object):
             assert chunk.shape[1:] == self.shape[1:]
         else:  # pragma: no cover
             assert chunk.shape == self.shape[1:]
-        self.fp.write(chunk.tobytes())
+        # The header declares self.dtype: write the bytes in that dtype.
+        self.fp.write(np.ascontiguousarray(chunk, dtype=self.dtype).tobytes())
 
     def close(self):
         self.fp.close()
